@@ -60,10 +60,13 @@ def label_holes(ctx, own, ks, vis=(4,), clauses=SHARED + ',c13,c19,c20', positio
     """realised-native: the label index and insert/replace flag are enumerated by the solver (complete)"""
     q = ctx.tier == 'quick'
     C = []
+    sensitive = {P.skel('def f[T'), P.skel('def f(a, /'), P.skel('f"a'), P.skel("f'''"), 12, 11}
     for k in ks:
         n = len(P.SKELS[k])
         poss = range(n + 1) if positions is None else [p for p in positions if p <= n]
         for vi in vis:
+            if not q and len(vis) > 1 and vi != 4 and k not in sensitive:
+                continue
             for pos in poss:
                 C.append(xh.Cond(M, 'pipe_label', timeout=200 if q else 600, path_timeout=30, own=own,
                                  env={'VP_CLAUSES': clauses, 'VP_VERSIONS': '0,4,8'},
